@@ -40,7 +40,18 @@ def quiescence_clauses(run: Run) -> list[tuple[str, str]]:
         out.append((f"stuck|{oracles.diagnose_stuck(run)}", f"workflow {ws}, queue empty, nothing suspended/paused; stages "
                     + str({s.name: s.status.name for s in wf.stages})))
     if ws == "SUCCEEDED":
-        bad = {s.name: s.status.name for s in top if s.status.name not in oracles.CONTINUABLE}
+        # documented exception (stage option failPipeline=false, CompleteWorkflow's STOPPED rule): such a stage may end STOPPED in a
+        # SUCCEEDED workflow, and what hangs off it never starts
+        stopped = {s.ref_id for s in top if s.status.name == "STOPPED" and s.context.get("failPipeline") is False}
+        behind: set[str] = set()
+        grew = True
+        while grew:
+            grew = False
+            for s in top:
+                if s.ref_id not in behind and s.status.name == "NOT_STARTED" and (set(s.requisite_stage_ref_ids) & (stopped | behind)):
+                    behind.add(s.ref_id)
+                    grew = True
+        bad = {s.name: s.status.name for s in top if s.status.name not in oracles.CONTINUABLE and s.ref_id not in stopped and s.ref_id not in behind}
         if bad:
             out.append(("succeeded-with-unfinished-stage", f"workflow SUCCEEDED but {bad}"))
     if any(s.status.name == "TERMINAL" for s in top):
@@ -87,7 +98,7 @@ def spec_strategy():
     corpus = list(core_corpus().values())
     return st.one_of(
         st.sampled_from(corpus),
-        dag_spec(max_stages=6, allow=("multi", "fail", "cof", "poll", "skip")),
+        dag_spec(max_stages=6, allow=("multi", "fail", "cof", "stop", "poll", "skip")),
         dag_spec(max_stages=5, allow=("multi", "poll"), joins=("AND", "DISC", "NOFM")),
         loop_spec(),
         synthetic_spec(),
@@ -170,7 +181,7 @@ def run(c: Campaign, jobs: int) -> None:
         "single worker thread; SQLite backend only",
     ]
     for cls in ("kind:racy-fail", "kind:early-join", "feat:before-child", "feat:after-child", "feat:onfail-child", "feat:failing-child",
-                "feat:predeclared-child", "feat:parallel-children", "feat:jump", "feat:suspend", "inj:dup-startstage"):
+                "feat:predeclared-child", "feat:parallel-children", "feat:stopped-failure", "feat:jump", "feat:suspend", "inj:dup-startstage"):
         if c.classes.get(cls, 0) == 0:
             c.harness_error(f"generator starvation: class {cls} never produced")
 
